@@ -2,7 +2,7 @@
    of a history run on a real SQLite registry, the outcome class and what the query interfaces / the raw
    tables report; these functions replay the same history on the model and say where it differs. *)
 From Coq Require Import NArith List Bool.
-From V Require Import Model.Registry.
+From V Require Import Model.Registry Model.RegistryAbs.
 Import ListNotations.
 Open Scope N_scope.
 
@@ -82,16 +82,29 @@ Section Universe.
     if negb (subl (m_need_t s) (o_summ_t b)) then 8 else
     if negb (subl (m_need_g s) (o_summ_g b)) then 9 else 0.
 
-  Fixpoint chk_from (s : state) (i : N) (h : list (op * obs)) : list N :=
+  (* the ABSTRACT specification (Model/RegistryAbs.v) replayed next to the row-level model: as long as the history is
+     honest (theorem abs_commutes) its outcome and its map must be what the implementation reports too; field 10 *)
+  Definition a_view (a : astate) : list (list N) :=
+    sortl (flat_map (fun c => flat_map (fun t => flat_map (fun d =>
+      match a_mem a c t d with Some i => [[c; t; d; i]] | None => [] end) [0; 1; 2; 3; 4; 5]) ts) cs).
+  Definition a_colls (a : astate) : list (list N) :=
+    sortl (flat_map (fun c => match a_coll a c with Some k => [[c; ct_code k]] | None => [] end) cs).
+  Definition chk_abs_step (a : astate) (o : outcome) (b : obs) : bool :=
+    (out_code o =? o_out b) && lleqb (a_view a) (o_api b) && lleqb (a_colls a) (o_colls b).
+
+  Fixpoint chk_from2 (s : state) (a : astate) (hon : bool) (i : N) (h : list (op * obs)) : list N :=
     match h with
     | [] => []
     | (o, b) :: r =>
+      let hon' := hon && honest_op s o in
       let '(s', out) := step s o in
+      let '(a', aout) := astep a o in
       match chk_step s' out b with
-      | 0 => chk_from s' (N.succ i) r
+      | 0 => if hon' && negb (chk_abs_step a' aout b) then [i; 10] else chk_from2 s' a' hon' (N.succ i) r
       | k => [i; k]
       end
     end.
+  Definition chk_from (s : state) (i : N) (h : list (op * obs)) : list N := chk_from2 s (abs s) true i h.
 
   Definition chk_where (h : list (op * obs)) : list N := chk_from init 0 h.
   Definition chk_hist (h : list (op * obs)) : bool := match chk_where h with [] => true | _ => false end.
@@ -107,6 +120,9 @@ Section Universe.
     end.
   Definition chk_summ_exact (h : list (op * obs)) : bool := chk_summ_from init h.
 End Universe.
+
+(* how many of the compared histories are honest (domain of abs_commutes) *)
+Definition is_honest (h : list (op * obs)) : bool := honest (map fst h).
 
 (* model trace for diagnostics / replay files *)
 Definition trace (h : list op) : list (N * list (list N)) :=
